@@ -354,7 +354,7 @@ class C10(Prop):
       yield {'op': 'order', 'ps': [wpath([rng.choice(ORDER_POOL) for _ in range(rng.randint(0, 3))])
                                    for _ in range(3)]}
     for _ in range(n_set):
-      dollar = rng.chance(0.03)
+      dollar = rng.chance(0.08)
       a = [gen_set_path(rng, dollar) for _ in range(rng.randint(0, 5))]
       b = [gen_set_path(rng, dollar) for _ in range(rng.randint(0, 5))]
       if rng.chance(0.2):
@@ -765,10 +765,9 @@ class C10(Prop):
     m = out['model']
     a_paths = [unwpath(p) for p in case['a']]
     b_paths = [unwpath(p) for p in case['b']]
-    dollar = any(k == '$' for p in a_paths + b_paths + [unwpath(o['p']) for o in case['ops']] for k in p)
-
     def fail(kind, what):
-      return {'signature': 'set:dollar-key' if dollar else 'set:' + kind, 'what': what}
+      # (before fix F19 a failure on paths with the key '$' carried its own signature)
+      return {'signature': 'set:' + kind, 'what': what}
 
     def as_set(lst, what):
       ts = [tpath(unwpath(p)) for p in lst]
